@@ -275,7 +275,9 @@ func projectColumns(selectList sql.SelectList, qfields storage.Fields, rows []*s
 				field = &storage.Field{Column: "count(*)"}
 			}
 		case sql.ColumnReference:
-			field = qfields[lookup[elem]]
+			// copy the field so that an alias only renames this occurrence
+			fieldCopy := *qfields[lookup[elem]]
+			field = &fieldCopy
 		default:
 			field = &storage.Field{Column: "?"}
 		}
